@@ -109,7 +109,9 @@ def run(ctx: Context) -> None:
         b11 = h11.methods["_receive_response_body"]
         for l in [x for x in loops_of(b11) if isinstance(x, ast.While)]:
             ys = [y for y in ast.walk(l) if isinstance(y, ast.Yield)]
-            ok = len(ys) == 1 and norm(ys[0].value) in ("bytes(event.data)", "event.data") and local_guards(ys[0], l) == {"isinstance(event,h11.Data)"}
+            # negative tests for OTHER event classes (the end-of-body test placed first) add nothing: the classes are disjoint
+            lg11 = {a for a in local_guards(ys[0], l) if not (a.startswith("not:isinstance(event,") and "h11.Data" not in a)} if ys else set()
+            ok = len(ys) == 1 and norm(ys[0].value) in ("bytes(event.data)", "event.data") and lg11 == {"isinstance(event,h11.Data)"}
             rep.ob("C02.R2", fkey(tree, b11, "h11-body-yield"), ok, where(b11, ys[0] if ys else l), "each h11.Data event is yielded once, unconditionally" if ok else f"HTTP/1.1 body loop: yields {[norm(y.value) for y in ys]} under {[sorted(local_guards(y, l)) for y in ys]}")
             eg = _exit_guards(l)
             okx = len(eg) == 1 and any(a.startswith("isinstance(event,") and "h11.EndOfMessage" in a and "h11.PAUSED" in a for a in eg[0]) and \
